@@ -26,7 +26,7 @@ var c42ForeignReads = []string{
 }
 
 func checkC42(c *Ctx, r *Report) {
-	r.Explanation = "Decides structural necessary conditions of 'reconciling again leaves every generated object unchanged and objects depend only on the cluster resource and the operator environment', for every controllerutil.CreateOrUpdate mutate function in pkg/operator and everything it reaches (static calls, closures, interface calls by CHA): (R1) no call to a clock, random source, uuid generator, pid/hostname, and no read of the API server, a file or the network — os.Getenv/LookupEnv is the allowed environment; (R2) a range over a map may only fill maps, or append to a slice that is sorted on every path before the function returns, or feed nothing order-sensitive (no string accumulation, no builder writes, no store outside the loop's own locals) — map order must not leak into a rendered list; (R3) overwrite, not accumulate: no append whose base, and no `x = x + …` whose operand, is memory of the very object being mutated (judged by the points-to engine, through helper functions that receive the object), so a second pass cannot grow a list the first pass already filled. Level 'other': API-server defaulting and admission changes between passes are outside, as is a second reconcile observing server-added fields."
+	r.Explanation = "Decides structural necessary conditions of 'reconciling again leaves every generated object unchanged and objects depend only on the cluster resource and the operator environment', for every controllerutil.CreateOrUpdate mutate function in pkg/operator and everything it reaches (static calls, closures, interface calls by CHA): (R1) no call to a clock, random source, uuid generator, pid/hostname, and no read of the API server, a file or the network — os.Getenv/LookupEnv is the allowed environment; (R2) a range over a map may only fill maps, or append to a slice that is sorted on every path before the function returns, or feed nothing order-sensitive (no string accumulation, no builder writes, no store outside the loop's own locals) — map order must not leak into a rendered list; (R4) no load from the object's own memory that is not dominated by this pass's store to the same or an enclosing location (identity fields Name/Namespace and the ensure-map idiom excepted) — a guard or value taken from what the previous pass left makes the second pass differ from the first; (R3) overwrite, not accumulate: no append whose base, and no `x = x + …` whose operand, is memory of the very object being mutated (judged by the points-to engine, through helper functions that receive the object), so a second pass cannot grow a list the first pass already filled. Level 'other': API-server defaulting and admission changes between passes are outside, as is a second reconcile observing server-added fields."
 	r.NotCovered = "fields defaulted or mutated by the API server between passes; equality of semantically equal but differently ordered values produced by dependencies; conditional assignments that keep a stale value when a spec field is cleared (history dependence across spec changes, not repeated reconciliation of the same spec)"
 	m, err := c.Mod("root")
 	if err != nil {
@@ -36,6 +36,7 @@ func checkC42(c *Ctx, r *Report) {
 	r.rule("C42.R1", "per mutate function: no clock / random / uuid / API-server / file / network input is reachable", 13)
 	r.rule("C42.R2", "per mutate function: map iteration order does not leak into rendered lists", 13)
 	r.rule("C42.R3", "per mutate function: the object's own lists and counters are overwritten, never extended", 13)
+	r.rule("C42.R4", "per mutate function: no decision or value is taken from the object's previous state", 13)
 
 	type mut struct {
 		name    string
@@ -204,6 +205,82 @@ func checkC42(c *Ctx, r *Report) {
 				}
 			}
 		}
+		// ---- R4 no read of the object's own previous state: a load from the object's memory must be
+		// dominated by a store of this pass to the same (or an enclosing) location; identity fields
+		// (Name, Namespace) set before CreateOrUpdate are exempt
+		var stale []string
+		nLoads := 0
+		for f := range ri {
+			for _, b := range f.Blocks {
+				for _, in := range b.Instrs {
+					u, ok := in.(*ssa.UnOp)
+					if !ok || u.Op != token.MUL {
+						continue
+					}
+					if _, isFA := u.X.(*ssa.FieldAddr); !isFA {
+						if _, isIA := u.X.(*ssa.IndexAddr); !isIA {
+							continue
+						}
+					}
+					marked := false
+					for o := range eng.pts(u.X, nil) {
+						if o.mark {
+							marked = true
+						}
+					}
+					if !marked {
+						continue
+					}
+					if fa, ok := u.X.(*ssa.FieldAddr); ok {
+						if _, fname, _, ok := fieldAddrInfo(fa); ok && (fname == "Name" || fname == "Namespace") {
+							continue
+						}
+					}
+					// the ensure-map idiom (nil test, then keyed writes) keeps foreign keys and is idempotent
+					if _, isMap := u.Type().Underlying().(*types.Map); isMap && u.Referrers() != nil {
+						only := true
+						for _, ref := range *u.Referrers() {
+							switch y := ref.(type) {
+							case *ssa.BinOp:
+								if !(y.Op == token.EQL || y.Op == token.NEQ) || !(isNilConst(y.X) || isNilConst(y.Y)) {
+									only = false
+								}
+							case *ssa.MapUpdate:
+								if y.Map != ssa.Value(u) {
+									only = false
+								}
+							case *ssa.DebugRef:
+							default:
+								only = false
+							}
+						}
+						if only {
+							continue
+						}
+					}
+					nLoads++
+					covered := false
+					for _, b2 := range f.Blocks {
+						for _, in2 := range b2.Instrs {
+							if st, ok := in2.(*ssa.Store); ok && addrCovers(st.Addr, u.X) && instrDominates(st, u) && !dependsOnSameLoad(st.Val, st.Addr) {
+								covered = true
+							}
+						}
+					}
+					if !covered {
+						stale = append(stale, fmt.Sprintf("%s in %s: reads %s of the object before this pass has assigned it — the value is whatever the previous pass (or the API server) left there", m.Pos(u.Pos()), f.Name(), describe(u.X)))
+					}
+				}
+			}
+		}
+		sort.Strings(stale)
+		key = "mutate of " + mu.name + ": does not read the object's previous state"
+		if len(stale) == 0 {
+			r.ok("C42.R4", key, m.Pos(mu.pos), fmt.Sprintf("%d reads of object memory, each after this pass's own assignment", nLoads))
+		} else {
+			r.viol("C42.R4", key, m.Pos(mu.pos), strings.Join(stale, "; "))
+		}
+
 		// the closure's host function is where the object lives; helper obligations are judged over
 		// the reachable set plus the closure itself
 		reports, _ := judgeRefSites(m, eng, ri, sites, func(v ssa.Value) string { return "memory of the object being mutated" }, "extends")
@@ -339,4 +416,22 @@ func dependsOnSameLoad(v, addr ssa.Value) bool {
 		}
 	})
 	return hit
+}
+
+// addrCovers: a store to `st` (re)defines the location `ld` — same location or an enclosing struct.
+func addrCovers(st, ld ssa.Value) bool {
+	for cur := ld; cur != nil; {
+		if sameAddr(st, cur) {
+			return true
+		}
+		switch x := cur.(type) {
+		case *ssa.FieldAddr:
+			cur = x.X
+		case *ssa.IndexAddr:
+			cur = x.X
+		default:
+			return false
+		}
+	}
+	return false
 }
